@@ -18,7 +18,7 @@ from common import req, close, relerr, TOL, run_driver
 import mixgen
 
 META = {
-    'text': 'Theorems (Lean 4, reals, all A, B, compositions and component counts) about a hand model of coefs/z_pr/fugacity/density: cubic at the co-volume limit, equivalence with the PR pressure equation, soundness of the root selection (both reported factors are roots of this cubic, above B, gas >= liquid, equal when one physical root), the criterion for a spurious root below B and that the original threshold picked it, positivity of fugacities and log arguments, sum y*Bp = 1, sum y*Ap = 2, gas not denser than liquid. Refinement theorems tie the hand model to the code REGENERATED from dbm_p.py on every run (translate/py2ir2.py): every output of the regenerated coefs equals that of the model on BOTH interaction-coefficient branches (coefs_refines_no_gc for a user/zero matrix, coefs_refines_gc for the group-contribution double loop), and the regenerated z_pr selects exactly the roots the model selects, so the root-selection theorem and the identities sum y*Bp = 1, sum y*Ap = 2 are also stated for the regenerated routines (Props/C01Gen.lean). The regenerated fugacity and density are refined too (Props/C01Fug.lean): entry (phase, component) of the regenerated fugacity IS the model fugacity of the refined coefficients at the selected root (gen_fugacity_refines), every entry is positive for positive mole fractions and pressure (gen_fugacity_pos), the regenerated density is [[rho(Z_gas)],[rho(Z_liq)]] with rho(Z) = 1/(Z R T/P - sum y vt) sum y M on the regenerated mole_fraction / volume_trans (gen_density_rows), and its gas row is not denser than its liquid row (gen_gas_not_denser); entry i of the regenerated volume_trans is the model's Lin-Duan translation or user Peneloux shift of component i, branch test included (gen_volume_trans_refines), and the regenerated density rows are the model density at the selected roots (gen_density_refines). The model is additionally tied to dbm_p by value correspondence on every case; the property predicates are evaluated on the real Python and Fortran outputs with an exact rational certificate that each reported factor is a root.',
+    'text': 'Theorems (Lean 4, reals, all A, B, compositions and component counts) about a hand model of coefs/z_pr/fugacity/density: cubic at the co-volume limit, equivalence with the PR pressure equation, soundness of the root selection (both reported factors are roots of this cubic, above B, gas >= liquid, equal when one physical root), the criterion for a spurious root below B and that the original threshold picked it, positivity of fugacities and log arguments, sum y*Bp = 1, sum y*Ap = 2, gas not denser than liquid. Refinement theorems tie the hand model to the code REGENERATED from dbm_p.py on every run (translate/py2ir2.py): every output of the regenerated coefs equals that of the model on BOTH interaction-coefficient branches (coefs_refines_no_gc for a user/zero matrix, coefs_refines_gc for the group-contribution double loop), and the regenerated z_pr selects exactly the roots the model selects, so the root-selection theorem and the identities sum y*Bp = 1, sum y*Ap = 2 are also stated for the regenerated routines (Props/C01Gen.lean). The regenerated fugacity and density are refined too (Props/C01Fug.lean): entry (phase, component) of the regenerated fugacity IS the model fugacity of the refined coefficients at the selected root (gen_fugacity_refines), every entry is positive for positive mole fractions and pressure (gen_fugacity_pos), the regenerated density is [[rho(Z_gas)],[rho(Z_liq)]] with rho(Z) = 1/(Z R T/P - sum y vt) sum y M on the regenerated mole_fraction / volume_trans (gen_density_rows), and its gas row is not denser than its liquid row (gen_gas_not_denser); entry i of the regenerated volume_trans is the hand model Lin-Duan translation or user Peneloux shift of component i, branch test included (gen_volume_trans_refines), and the regenerated density rows are the model density at the selected roots (gen_density_refines). The model is additionally tied to dbm_p by value correspondence on every case; the property predicates are evaluated on the real Python and Fortran outputs with an exact rational certificate that each reported factor is a root.',
     'note': 'Trusted: Lean kernel + 3 standard axioms; translator py2ir2 (validated by executing the generated routines against dbm_p in C08); hand model (refined by the regenerated code for coefs on both delta branches, for the root selection, for fugacity and for density; volume translation refined entrywise on both branches); the cubic root finders are a parameter with a contract validated per sample (exact rational residual + exact discriminant); real arithmetic for doubles. Partial: the pressure-derivative identity, Gibbs-Duhem in composition and phi -> 1 as P -> 0 are evaluated by finite differences on the real code (tests, not theorems); positivity of the translated molar volume is sampled.',
     'technique': 'Lean 4 proof over a hand-written executable model refined by a model regenerated from source + value correspondence + exact-rational root certificates on the real code',
 }
